@@ -63,7 +63,7 @@ theorem verdict_ok {e : Emu} {ti : Nat} {x : Option (ThState × Option Nat)} {r 
     (hv : Verdict e ti x r) (hr : r = .ok e1) : ∃ y, x = some y ∧ StepOK e ti y e1.flushAll := by
   cases x with
   | none => obtain ⟨err, he⟩ := hv; rw [he] at hr; cases hr
-  | some y => exact ⟨y, rfl, hv.2 e1 hr⟩
+  | some y => exact ⟨y, rfl, hv.2.1 e1 hr⟩
 
 /-- Every accepted thread or affinity event leads from a well-formed state to a well-formed state
     in which exactly one thread's logical state changed. -/
